@@ -174,8 +174,10 @@ def _f21(vio):
     from vlib import model
     det = vio.get("detail") or {}
     chain = det.get("chain") or []
-    if vio.get("kind") != "invalid-result" or not chain or chain[-1] not in ("sort", "argsort"):
+    if vio.get("kind") != "invalid-result" or not chain or chain[-1] not in ("sort", "argsort", "num"):
         return False
+    if "RecordArray" in (det.get("result_classes") or []) or "Record" in (det.get("result_classes") or []):
+        return True
     return any(n["c"] == "RecordArray" for d in _layouts(vio) for _p, n in model.walk(d))
 
 
@@ -502,6 +504,35 @@ def _f59(vio):
 def _f61(vio):
     return vio.get("kind") == "invalid-snapshot" and "only allowed for ListArray" in str(vio.get("detail")) and \
         (vio.get("case") or {}).get("mode") == "append"
+
+
+@mechanism("F65-masked-wraps-lazy-carry")
+def _f65(vio):
+    import re
+    det = vio.get("detail") or {}
+    return vio.get("kind") == "invalid-result" and bool(re.search(
+        r"(ByteMaskedArray|BitMaskedArray|UnmaskedArray) contains IndexedArray", str(det.get("validityerror", ""))))
+
+
+@mechanism("F42b-sort-option-invalid-index")
+def _f42b(vio):
+    det = vio.get("detail") or {}
+    chain = det.get("chain") or []
+    return vio.get("kind") == "invalid-result" and chain and chain[-1] in ("sort", "argsort") and \
+        "index[i] >= len(content)" in str(det.get("validityerror", ""))
+
+
+@mechanism("F15b-is_unique-strings")
+def _f15b(vio):
+    from vlib import model
+    det = vio.get("detail") or {}
+    if vio.get("kind") != "valid-array-rejected" or "requires contents to be unique" not in str(det.get("validityerror", "")):
+        return False
+    for d in _layouts(vio):
+        for _p, n in model.walk(d):
+            if model.param(n, "__array__") == "categorical" and model.param(n["content"], "__array__") == "string":
+                return True
+    return False
 
 
 @mechanism("F10-reduce-nonlocal")
